@@ -177,6 +177,12 @@ class AirTouchSocket(Generic[comms.Hdr]):
         if self.is_open:
             self.is_open = False
 
+            # Messages still waiting for a connection die with the socket. They
+            # must not be sent by a later open_socket().
+            for entry in self._message_queue:
+                self._log_dropped_message(entry, "socket closed")
+            self._message_queue.clear()
+
             # Stop any connection attempt (in flight or waiting for the retry
             # delay) and the read loop, so nothing re-connects after closing.
             current_task = asyncio.current_task()
